@@ -54,8 +54,8 @@ Print Assumptions C06_refs_balanced.
 
 (* the analysis is a function of the observation only: two observations of an unchanged target
    give equal results (model level; equality of real results is checked by the runtime leg) *)
-Theorem C06_analysis_deterministic : forall c t r l (st : list (val nat)),
-  trickery c t r l st = trickery c t r l st /\ referents c t l st = referents c t l st.
+Theorem C06_analysis_deterministic : forall v c t r l (st : list (val nat)),
+  trickery v c t r l st = trickery v c t r l st /\ referents v c t l st = referents v c t l st.
 Proof. split; reflexivity. Qed.
 Print Assumptions C06_analysis_deterministic.
 
